@@ -1,5 +1,8 @@
 (* C10 -- A ResendRequest is answered with exactly the requested stored messages. *)
-From SF Require Import Bytes Values Wire Parse Session Session_proofs Session_clean Session_handlers.
+From Coq Require Import List ZArith.
+From SF Require Import Bytes Values Wire Parse Session Session_proofs Session_clean Session_handlers
+  Session_c05 Session_hist Session_c10.
+Import ListNotations.
 
 (* logged on: the handler looks up from..to (to = 0 meaning the last number sent) and retransmits
    what the store returns, or nothing *)
@@ -54,3 +57,67 @@ Theorem C10_gap_request_fields :
             /\ mt_of (gap_request n) = msgtype_ResendRequest.
 Proof. exact gap_request_fields. Qed.
 Print Assumptions C10_gap_request_fields.
+
+(* ---- over whole histories ----
+   A session is constructed (outbound counter c, a store whose entries sit under their own numbers,
+   none beyond c), the application registers what it likes (pre), Run, and then anything happens in any order: inbound messages of any content,
+   application sends, registrations of pass-through handlers, timer expiries, Logout, Stop.  If at
+   that point the session is logged on and its router running, a ResendRequest for from..to
+   (EndSeqNo 0 meaning "up to the last number handed out") with c < from <= to <= last is answered
+   with exactly to-from+1 messages, carrying the numbers from, from+1, ..., to in this order, each
+   of them byte-identical to a message transmitted earlier in the history; the outbound counter and
+   the store are unchanged.  (Together with C10_same_number_same_bytes: byte-identical to *the*
+   message transmitted under that number.) *)
+Theorem C10_history_resend_answer :
+  forall cfg ci c store pre ops sp op s0 o0 s os d rm,
+    c_fail_saves cfg = [] ->
+    (forall k m, store_get store k = Some m -> seq_of m = k /\ (k <= c)%Z) ->
+    Forall op_clean pre -> run_ops cfg (init_state cfg ci c store) pre = (sp, op) ->
+    run_session cfg sp = (s0, o0) ->
+    Forall op_clean ops ->
+    run_ops cfg s0 ops = (s, os) ->
+    parse_as msgtype_ResendRequest tpl_ResendRequest d = Ok rm -> is_logged s = true ->
+    s_router_stopped s = false ->
+    let from := get_int tag_BeginSeqNo (m_body rm) in
+    let to0 := get_int tag_EndSeqNo (m_body rm) in
+    let to := if Z.eqb to0 0 then s_cnt_out s else to0 in
+    (c < from)%Z -> (from <= to)%Z -> (to <= s_cnt_out s)%Z ->
+    exists s' o,
+      run_in_handler cfg s HResend d = (s', o, true)
+      /\ map seq_of (wires o) = zrange (from - 1) (Z.to_nat (to - from + 1))
+      /\ Forall (fun w => In w (wires (concat op ++ o0 ++ concat os))) (wires o)
+      /\ s_cnt_out s' = s_cnt_out s
+      /\ (forall k, store_get (s_store s') k = store_get (s_store s) k).
+Proof. exact history_resend_answer. Qed.
+Print Assumptions C10_history_resend_answer.
+
+(* everything transmitted in a history is in the store under its own number, byte for byte, and
+   two transmissions under one number are the same bytes *)
+Theorem C10_same_number_same_bytes :
+  forall cfg ci c store pre ops sp op s0 o0 s' os,
+    c_fail_saves cfg = [] ->
+    (forall k m, store_get store k = Some m -> seq_of m = k /\ (k <= c)%Z) ->
+    Forall op_clean pre -> run_ops cfg (init_state cfg ci c store) pre = (sp, op) ->
+    run_session cfg sp = (s0, o0) ->
+    Forall op_clean ops ->
+    run_ops cfg s0 ops = (s', os) ->
+    let sent := wires (concat op ++ o0 ++ concat os) in
+    (forall w, In w sent -> exists m, store_get (s_store s') (seq_of w) = Some m /\ fst (prepare m) = w)
+    /\ (forall w1 w2, In w1 sent -> In w2 sent -> seq_of w1 = seq_of w2 -> w1 = w2).
+Proof. exact history_sent_is_stored. Qed.
+Print Assumptions C10_same_number_same_bytes.
+
+(* the premises are satisfiable: a concrete history (Run, the peer's Logon, two application
+   messages, a pass-through registration) ends logged on with the router running and counter 3; a
+   ResendRequest for 2..3 parses, and the model's answer is the second and third transmitted message *)
+Theorem C10_history_nonvacuous :
+  Forall op_clean ex10_ops
+  /\ is_logged (fst ex10_hist) = true /\ s_router_stopped (fst ex10_hist) = false
+  /\ s_cnt_out (fst ex10_hist) = 3%Z
+  /\ (exists rm, parse_as msgtype_ResendRequest tpl_ResendRequest (ex10_resend 2 3) = Ok rm
+                 /\ get_int tag_BeginSeqNo (m_body rm) = 2%Z /\ get_int tag_EndSeqNo (m_body rm) = 3%Z)
+  /\ wire_seqs (concat (snd ex10_hist)) = [1; 2; 3]%Z
+  /\ (let '(_, o, _) := run_in_handler ex5_cfg (fst ex10_hist) HResend (ex10_resend 2 3) in
+      wires o = skipn 1 (wires (concat (snd ex10_hist)))).
+Proof. exact resend_example. Qed.
+Print Assumptions C10_history_nonvacuous.
